@@ -407,14 +407,15 @@ pub fn run_readonly(bytes: &[u8]) -> Vec<(String, String)> {
                 let _ = l.comp.exists(&p);
                 let _ = l.comp.is_stream(&p);
                 let _ = l.comp.is_storage(&p);
-                if e.is_storage() {
-                    if let Ok(it) = l.comp.read_storage(&p) {
-                        let _: Vec<cfb::Entry> = it.take(100_000).collect();
-                    }
-                    if let Ok(it) = l.comp.walk_storage(&p) {
-                        let _: Vec<cfb::Entry> = it.take(100_000).collect();
-                    }
-                } else if let Ok(mut s) = l.comp.open_stream(&p) {
+                // every call on every path, whatever kind the entry claims to be (a damaged entry's
+                // kind as listed and as looked up need not agree)
+                if let Ok(it) = l.comp.read_storage(&p) {
+                    let _: Vec<cfb::Entry> = it.take(100_000).collect();
+                }
+                if let Ok(it) = l.comp.walk_storage(&p) {
+                    let _: Vec<cfb::Entry> = it.take(100_000).collect();
+                }
+                if let Ok(mut s) = l.comp.open_stream(&p) {
                     let len = s.len();
                     let mut buf = Vec::new();
                     // read in bounded steps: a stream may claim an enormous length
@@ -499,11 +500,15 @@ pub enum MOp {
     CreateUnder(usize),
     /// open, seek to the end, relative seeks on both sides of it, then overwrite a few bytes
     SeekAround(usize),
+    /// a caller that retries: three attempts to append 600 bytes and flush, errors ignored
+    AppendRetry(usize),
+    /// three attempts to create and fill a large stream, errors ignored
+    CreateRetry,
 }
 
 /// Mutation alphabet for a file with `ns` streams and `nd` storages (by walk index).
 pub fn mutation_alphabet(ns: usize, nd: usize) -> Vec<MOp> {
-    let mut v = vec![MOp::CreateSmall, MOp::CreateLarge, MOp::CreateStorage, MOp::RemoveAll, MOp::Flush];
+    let mut v = vec![MOp::CreateSmall, MOp::CreateLarge, MOp::CreateStorage, MOp::RemoveAll, MOp::Flush, MOp::CreateRetry];
     for i in 0..ns.min(6) {
         v.push(MOp::Rewrite(i, 100));
         v.push(MOp::Rewrite(i, 5000));
@@ -513,6 +518,7 @@ pub fn mutation_alphabet(ns: usize, nd: usize) -> Vec<MOp> {
         v.push(MOp::SetLen(i, 5000));
         v.push(MOp::RemoveStream(i));
         v.push(MOp::SeekAround(i));
+        v.push(MOp::AppendRetry(i));
     }
     for i in 0..nd.min(4) {
         v.push(MOp::RemoveStorage(i));
@@ -547,6 +553,30 @@ fn do_mop(l: &mut Live, op: &MOp, streams: &[std::path::PathBuf], storages: &[st
                 if let Ok(s) = l.comp.create_stream(p) {
                     let mut s = ops::NoDropOnPanic::new(s);
                     let _ = s.write_all(&data(*n));
+                    let _ = s.flush();
+                }
+            }
+        }
+        MOp::AppendRetry(i) => {
+            if let Some(p) = streams.get(*i) {
+                if let Ok(s) = l.comp.open_stream(p) {
+                    let mut s = ops::NoDropOnPanic::new(s);
+                    for _ in 0..3 {
+                        if s.seek(SeekFrom::End(0)).is_ok() {
+                            let _ = s.write_all(&data(600));
+                        }
+                        let _ = s.flush();
+                        let n = s.len();
+                        let _ = s.set_len(n.saturating_add(600));
+                    }
+                }
+            }
+        }
+        MOp::CreateRetry => {
+            for k in 0..3 {
+                if let Ok(s) = l.comp.create_stream(format!("/__retry{}", k)) {
+                    let mut s = ops::NoDropOnPanic::new(s);
+                    let _ = s.write_all(&data(5000));
                     let _ = s.flush();
                 }
             }
